@@ -44,7 +44,7 @@ checks = {
  'C08': dict(cat='exploration', tech='Go race detector over perturbed concurrent workloads + porcupine linearizability check of client-boundary histories against a sequential model; invariant hook at the join',
    text='Thousands of short multi-client histories (incl. first-access storms after Open and chained search refinements) run under -race with injected yields; single-lock operations are checked for linearizability with porcupine, compound ones with a weaker per-object oracle and the index invariant hook.', ref='4/C08'),
  'C09': dict(cat='exploration', tech='lock-discipline monitor on every mutex and WaitGroup operation of the package (recursive acquisition, lock-order inversion, wait-for cycle, lock leak, WaitGroup deadlock, busy loop under the lock, fate of spawned goroutines) over a reflection-driven coverage walk and contention stress incl. Close under readers',
-   text='A single execution of each exported method under the monitor decides its lock discipline for every schedule (a recursive RLock is a deadlock waiting for a writer); contention stress adds actual wait-for-cycle detection. Undriven call paths are not seen.', ref='4/C09'),
+   text='A single execution of each exported method under the monitor decides its lock discipline for every schedule (a recursive RLock is a deadlock waiting for a writer; first calls on fresh handles load schemas through writes, reads and Schema itself so that every loading path shows its lock order); contention stress adds actual wait-for-cycle detection. Undriven call paths are not seen.', ref='4/C09'),
 }
 notes = {}
 m = {
